@@ -489,6 +489,54 @@ def gen_tokens(tier, F, tool='cnfgen'):
                 yield case(fam, tool, name, [], [name] + w)
 
 
+def gen_box(tier, F):
+    """all numeric vectors of full length inside a box of legal-looking
+    values (the success-rich part of the space)"""
+    thorough = tier == 'thorough'
+    for d in F:
+        if graph_type(d) is not None or d['arity'] == 0:
+            continue
+        name, a = d['name'], d['arity']
+        if any(k[0] in ('file',) for k in d['pos']):
+            continue
+        if a <= 3:
+            alpha = ['0', '1', '2', '3', '4', '5'] if thorough else ['1', '2', '3', '4']
+            lens = range(1, a + 1) if any(k[0] == 'star' for k in d['pos']) else [a]
+            for n in lens:
+                for w in words(alpha, n, n):
+                    yield case('box', 'cnfgen', name, [], [name] + w)
+        else:
+            alpha = ['1', '2', '3', '4'] if thorough else ['2', '4']
+            for w in words(alpha, a, a):
+                yield case('box', 'cnfgen', name, [], [name] + w)
+            if thorough:
+                for w in words(['2', '3'], a + 1, a + 2):
+                    yield case('box', 'cnfgen', name, [], [name] + w)
+
+
+SPECS_MORE = {
+    'simple': [['gnp', '4', '.5'], ['gnp', '4', '0'], ['gnp', '3', '1'],
+               ['gnm', '4', '3'], ['gnd', '4', '2'], ['gnd', '4', '3'],
+               ['grid', '2', '3'], ['grid', '4'], ['torus', '3', '3'],
+               ['complete', '4'], ['empty', '3'], ['gnp', '2', '.5', '2'],
+               ['complete', '3', 'plantclique', '2'],
+               ['empty', '4', 'addedges', '2'],
+               ['complete', '3', 'splitedges', '1'],
+               ['kthlist', '{FX}/simple_valid.kthlist'],
+               ['{FX}/simple_valid.gml']],
+    'dag': [['path', '3'], ['tree', '2'], ['pyramid', '3'],
+            ['kthlist', '{FX}/dag_valid.kthlist'], ['{FX}/dag_valid.dot']],
+    'bipartite': [['glrp', '3', '3', '.5'], ['glrp', '2', '3', '0'],
+                  ['glrm', '3', '3', '4'], ['glrm', '2', '2', '4'],
+                  ['glrd', '3', '4', '2'], ['regular', '4', '2', '1'],
+                  ['shift', '3', '3', '1', '2'], ['complete', '3', '2'],
+                  ['empty', '1', '3'], ['complete', '2', '2', 'plantbiclique', '1', '1'],
+                  ['empty', '2', '2', 'addedges', '2'],
+                  ['matrix', '{FX}/bipartite_valid.matrix'],
+                  ['{FX}/bipartite_valid.kthlist']],
+}
+
+
 def gen_graph_hosts(tier, F):
     """every graph-taking sub-command on small / degenerate graphs, crossed
     with all tokens for its numeric arguments"""
@@ -500,13 +548,16 @@ def gen_graph_hosts(tier, F):
         name = d['name']
         if any(k[0] == 'star' for k in d['pos']):
             for pre in COMPOSITE_PREFIX.get(name, [[]]):
-                for s in SPECS[gt]:
+                for s in SPECS[gt] + SPECS_MORE[gt]:
                     yield case('graph-hosts', 'cnfgen', name, [], [name] + pre + s)
             continue
         nnum = sum(1 for k in d['pos'] if k[0] == 'num')
         alpha = A8 if (thorough or nnum <= 1) else A6
         for w in words(alpha, nnum, nnum):
             for s in SPECS[gt]:
+                yield case('graph-hosts', 'cnfgen', name, [], [name] + w + s)
+        for w in words(['0', '1', '2', '3', '4'] if thorough else ['2'], nnum, nnum):
+            for s in SPECS_MORE[gt]:
                 yield case('graph-hosts', 'cnfgen', name, [], [name] + w + s)
 
 
@@ -1007,7 +1058,8 @@ def gen_extra(tier, seed, F, T):
 def all_cases(tier, seed):
     """the complete, ordered, duplicate-free list of cases of a tier"""
     F, T = registry()
-    gens = [gen_main(tier, F), gen_tokens(tier, F), gen_graph_hosts(tier, F),
+    gens = [gen_main(tier, F), gen_tokens(tier, F), gen_box(tier, F),
+            gen_graph_hosts(tier, F),
             gen_options(tier, F), gen_formats(tier, F),
             gen_graph_grammar(tier), gen_files(tier, F),
             gen_transformations(tier, T), gen_tokens(tier, F, 'pbgen'),
@@ -1071,7 +1123,25 @@ def line_shielded(line, fmt):
     return line == m or line.startswith(m + ' ')
 
 
-def judge(c, o, stage='parse'):
+def _graph_layer(where):
+    return where[0].startswith('clitools/graph_') or where[0] == 'graphs.py'
+
+
+def _no_formula(sub, detail, o, probe):
+    """exit status 0 without a formula.  When nothing at all was printed,
+    main() has swallowed an exception: `probe()` re-runs the command line
+    through cli() (the function main() wraps) to name it."""
+    if probe is not None and o.stdout == '' and o.stderr == '':
+        q = probe()
+        if q is not None and q.exc is not None:
+            s = 'graphspec' if _graph_layer(q.exc_where) else sub
+            return (s, 'exit0:swallowed:%s@%s' % (q.exc, q.exc_where[1]),
+                    'exit status 0, nothing on stdout/stderr: main() swallowed %s: %s (in %s)'
+                    % (q.exc, q.exc_msg[:120], '/'.join(q.exc_where)))
+    return (sub, 'exit0:no-formula', detail)
+
+
+def judge(c, o, stage='parse', probe=None):
     """(class, [(sub-for-key, symptom, detail)]) for the outcome of a case."""
     fmts = c['fmt']
     sub = c['sub']
@@ -1081,7 +1151,7 @@ def judge(c, o, stage='parse'):
     if o.exc is not None:
         where = o.exc_where
         s = sub
-        if where[0].startswith('clitools/graph_') or where[0] == 'graphs.py':
+        if _graph_layer(where):
             s = 'graphspec'
         elif where[0].startswith('transformations/') and not sub.startswith('T:'):
             s = 'transformation'
@@ -1110,8 +1180,9 @@ def judge(c, o, stage='parse'):
                 bad.append((sub, 'success:stdout-not-empty-with-o', o.stdout[:120]))
                 return 'violation', bad
             if text == '':
-                bad.append((sub, 'exit0:no-formula', 'exit status 0, output file empty, '
-                            'stdout %r stderr %r' % (o.stdout[:80], o.stderr[:120])))
+                bad.append(_no_formula(sub, 'exit status 0, output file empty, '
+                                       'stdout %r stderr %r' % (o.stdout[:80], o.stderr[:120]),
+                                       o, probe))
             else:
                 bad.append((sub, 'formula-rejected:%s:%s' % (fmts[0], why[0]), why[1]))
             return 'violation', bad
@@ -1124,8 +1195,8 @@ def judge(c, o, stage='parse'):
         if helpish and text.strip():
             return 'help', []
         if text == '':
-            bad.append((sub, 'exit0:no-formula', 'exit status 0 and nothing on stdout; '
-                        'stderr %r' % o.stderr[:160]))
+            bad.append(_no_formula(sub, 'exit status 0 and nothing on stdout; '
+                                   'stderr %r' % o.stderr[:160], o, probe))
         else:
             bad.append((sub, 'formula-rejected:%s:%s' % (fmts[0], why[0]),
                         '%s | stdout starts %r' % (why[1], text[:80])))
@@ -1195,6 +1266,21 @@ def violations_of(c, verdicts):
     return out
 
 
+def cli_probe(c, sandbox):
+    """lazy, memoised in-process run of cli() (not main()) for a case"""
+    memo = []
+
+    def probe():
+        if not memo:
+            from engine import cli
+            saved = list(STAGE)
+            memo.append(cli.run_inproc(c['tool'], c['args'], stdin_bytes(c['stdin']),
+                                       sandbox, entry='cli'))
+            STAGE[:] = saved
+        return memo[0]
+    return probe
+
+
 def execute(c, sandbox, process=False):
     from engine import cli
     data = stdin_bytes(c['stdin'])
@@ -1241,11 +1327,12 @@ def run_slice(args, R):
             stage = stage_reached()
             R.stats['inproc_calls'] += 1
             R.stats['stage_' + stage] += 1
-            verdicts = {'inproc': judge(c, o, stage)}
+            probe = cli_probe(c, sb)
+            verdicts = {'inproc': judge(c, o, stage, probe)}
             if c['core'] or i % stride == 0:
                 p = execute(c, sb, process=True)
                 R.stats['process_calls'] += 1
-                verdicts['process'] = judge(c, p, stage)
+                verdicts['process'] = judge(c, p, stage, probe)
                 agree = (o.exit == p.exit and o.exc == p.exc and
                          verdicts['inproc'][0] == verdicts['process'][0] and
                          [b[:2] for b in verdicts['inproc'][1]] ==
@@ -1299,8 +1386,9 @@ def replay(case_):
     with cli.Sandbox(fixtures()) as sb:
         o = execute(c, sb)        # always: tells the stage reached
         stage = stage_reached()
+        probe = cli_probe(c, sb)
         if 'inproc' in hows:
-            verdicts['inproc'] = judge(c, o, stage)
+            verdicts['inproc'] = judge(c, o, stage, probe)
         if 'process' in hows:
-            verdicts['process'] = judge(c, execute(c, sb, process=True), stage)
+            verdicts['process'] = judge(c, execute(c, sb, process=True), stage, probe)
     return violations_of(c, verdicts)
